@@ -522,6 +522,7 @@ impl<'a> VariableParserExtension<'a> {
         let iterator = reflection.iter(pcx.evcx.ecx.pid_on_focus())?;
         let kv_items = iterator
             .map_err(ParsingError::from)
+            .take(LEN_GUARD as usize)
             .filter_map(|bucket| {
                 let raw_data = bucket.read(pcx.evcx.ecx.pid_on_focus());
                 let data = weak_error!(raw_data).map(|d| ObjectBinaryRepr {
@@ -587,6 +588,7 @@ impl<'a> VariableParserExtension<'a> {
         let iterator = reflection.iter(pcx.evcx.ecx.pid_on_focus())?;
         let items = iterator
             .map_err(ParsingError::from)
+            .take(LEN_GUARD as usize)
             .filter_map(|bucket| {
                 let raw_data = bucket.read(pcx.evcx.ecx.pid_on_focus());
                 let data = weak_error!(raw_data).map(|d| ObjectBinaryRepr {
